@@ -409,7 +409,7 @@ func constByName(c *Ctx, pkg, name string) (int64, bool) {
 	}
 	for _, p := range c.Pkgs {
 		if short(p.PkgPath) == pkg {
-			if o := p.Types.Scope().Lookup(name); o != nil {
+			if o := scopeLookup(p.Types, name); o != nil {
 				v := constOf(o)
 				return v, v >= 0
 			}
